@@ -409,7 +409,7 @@ where
     let mut steps = 0usize;
     let mut yields = 0usize;
     let class;
-    let mut depth;
+    let depth;
     let pc_end;
     {
         let mut rs = machine.create_run_state(&mut io, ctx.clone());
@@ -471,7 +471,6 @@ where
             };
             if c2 != class {
                 // deterministic subject ⇒ must agree; disagreement is reported as its own class
-                depth = usize::MAX;
                 return Outcome { class: format!("MISMATCH step={class} run={c2}"), steps, sig: 0 };
             }
         }
@@ -1424,13 +1423,12 @@ pub fn run(args: &Args) {
     let thorough = args.tier == mcx::Tier::Thorough;
     let names: &[&str] = if thorough { &["seq", "probe", "codemap", "subst", "args", "modtrunc"] } else { &["seq", "seq3", "probe", "codemap", "subst", "args", "modtrunc"] };
     let mut exhaustive = true;
-    for n in names {
-        let sp = space_by_name(n, args);
-        let t0 = std::time::Instant::now();
-        let (acc, complete) = common::run_space(sp.as_ref(), args, 48);
+    let spaces: Vec<Box<dyn Space>> = names.iter().map(|n| space_by_name(n, args)).collect();
+    let refs: Vec<&dyn Space> = spaces.iter().map(|b| b.as_ref()).collect();
+    let results = common::run_spaces(&refs, args, 32);
+    for ((n, sp), (acc, complete)) in names.iter().zip(spaces.iter()).zip(results) {
         exhaustive &= complete;
         rep.set(&format!("{n}.units"), sp.units());
-        rep.set(&format!("{n}.wall_s"), (t0.elapsed().as_secs_f64() * 10.0).round() / 10.0);
         common::fold(&mut rep, n, acc);
     }
     // every kind must have been executed
